@@ -78,7 +78,14 @@ def mutation_selftest(prop, r):
             if an.build_errors:
                 results.append({"id": m["id"], "status": "undecided: generated file does not compile: %s" % an.build_errors[0][:160]})
                 continue
-            hit = sorted({(f["ob"] or ("%s@%s" % (f["kind"], f["fn"]))) for f in an.failures if prop in P.failure_tags(f)})
+            # same decision policy as the check itself: a failure in a function whose annotations could not be placed is
+            # undecided, not a detection
+            deg = {d.split(": ")[0] for d in em.degraded if ": orphan: " not in d}
+            hit = sorted({(f["ob"] or ("%s@%s" % (f["kind"], f["fn"]))) for f in an.failures if prop in P.failure_tags(f) and f["fn"] not in deg})
+            und = sorted({(f["ob"] or ("%s@%s" % (f["kind"], f["fn"]))) for f in an.failures if prop in P.failure_tags(f) and f["fn"] in deg})
+            if not hit and und:
+                results.append({"id": m["id"], "status": "undecided: obligations fail only in functions whose annotations could not be placed", "obligations": und[:4]})
+                continue
             if hit:
                 killed += 1
                 results.append({"id": m["id"], "status": "killed", "obligations": hit[:4]})
